@@ -21,7 +21,7 @@ def run(run):
     gsm.bfs_slice(run, 'C10R', 5 if quick else 6, keep=KEEP)      # undo / remove_node, then save and load
     gsm.bfs_slice(run, 'C10A', 5 if quick else 6, keep=KEEP)      # nodes without an asset; a loaded graph saved and loaded again
     # two attackers sharing a name (once an open finding, repaired by 30f4fbb): exercised on every run
-    gsm.bfs_slice(run, 'C10F', 4, keep=KEEP)
+    gsm.bfs_slice(run, 'C10F', 5, keep=KEEP, env={'VERIF_GMAXATK': 3})      # up to three attackers: "ga", "ga:2", "ga" (id 2)
     gsm.simulate(run, 'C10', 9, 3000 if quick else 40000, keep=KEEP, free=False, timeout=300 if quick else 1800)
     gsm.simulate(run, 'ALL', 12, 2000 if quick else 40000, keep=KEEP, lang='LDef', timeout=300 if quick else 1800)
     gsm.simulate(run, 'ALL', 12, 2000 if quick else 40000, keep=KEEP, timeout=300 if quick else 1800)
